@@ -65,3 +65,7 @@ fn init_tracing_for_testing() -> ::tracing::dispatcher::DefaultGuard {
 
     ::tracing::subscriber::set_default(subscriber)
 }
+
+#[cfg(feature = "verif-hooks")]
+#[doc(hidden)]
+pub mod verif_hooks;
